@@ -20,12 +20,23 @@ theorem fail_reports_error (env : Env) (fuel : Nat) (states : Json) (name : Str)
   have h2 : (S "Fail" = S "Succeed") = False := by decide
   simp [runState, h, h1, h2]
 
-/-- a state with `End: true` ends the scope successfully with its output — whatever that output
-contains (in particular an `Error` member does not turn success into failure) -/
+/-- a state with `End: true` whose output is within the size limit ends the scope successfully with
+that output — whatever it contains (in particular an `Error` member does not turn success into failure) -/
 theorem end_reached_succeeds (env : Env) (fuel : Nat) (states : Json) (name : Str) (state raw out ctx : Json)
-    (retries : Nat) (st : St) (h : isTrue (fld state "End") = true) :
+    (retries : Nat) (st : St) (h : isTrue (fld state "End") = true)
+    (hL : (render out).length ≤ env.maxData) :
     leave env (fuel + 1) states name state raw out ctx retries st = (.done out, st) := by
-  simp [leave, h]
+  have : ¬ (render out).length > env.maxData := by omega
+  simp [leave, h, this]
+
+/-- … and when the output of the terminal state is longer than the limit the state fails with
+`States.DataLimitExceeded`, subject to its Retry/Catch on its raw input (like a refused transition) -/
+theorem end_over_limit_is_data_limit_error (env : Env) (fuel : Nat) (states : Json) (name : Str)
+    (state raw out ctx : Json) (retries : Nat) (st : St) (h : isTrue (fld state "End") = true)
+    (hL : (render out).length > env.maxData) :
+    leave env (fuel + 1) states name state raw out ctx retries st =
+      handleErr env fuel states name state raw ctx retries (S "States.DataLimitExceeded") (S "m") st := by
+  simp [leave, h, hL]
 
 /-- without End the successor is exactly `Next`, entered with the state's output as its input -/
 theorem next_followed (env : Env) (fuel : Nat) (states : Json) (name next : Str) (state raw out ctx : Json)
@@ -44,14 +55,27 @@ theorem missing_next_is_runtime_error (env : Env) (fuel : Nat) (states : Json) (
       handleErr env fuel states name state raw ctx retries (S "States.Runtime") (S "m") st := by
   simp [leave, hE, hN]
 
-/-- the Succeed state: InputPath then OutputPath, then success -/
+/-- the Succeed state: InputPath then OutputPath, then success (the output being within the size limit) -/
 theorem succeed_state (env : Env) (fuel : Nat) (states : Json) (name : Str) (state data ctx input out : Json)
     (retries : Nat) (st : St) (h : stateType state = S "Succeed")
     (hi : applyPath data ctx (pathArg state "InputPath") = .ok input)
-    (ho : applyPath input ctx (pathArg state "OutputPath") = .ok out) :
+    (ho : applyPath input ctx (pathArg state "OutputPath") = .ok out)
+    (hL : (render out).length ≤ env.maxData) :
     runState env (fuel + 1) states name state data ctx retries st = (.done out, st) := by
   have h1 : (S "Succeed" = S "Pass") = False := by decide
-  simp [runState, h, h1, hi, ho]
+  have : ¬ (render out).length > env.maxData := by omega
+  simp [runState, h, h1, hi, ho, this]
+
+/-- a Succeed state whose output is over the limit fails with `States.DataLimitExceeded` (raw input) -/
+theorem succeed_over_limit_is_data_limit_error (env : Env) (fuel : Nat) (states : Json) (name : Str)
+    (state data ctx input out : Json) (retries : Nat) (st : St) (h : stateType state = S "Succeed")
+    (hi : applyPath data ctx (pathArg state "InputPath") = .ok input)
+    (ho : applyPath input ctx (pathArg state "OutputPath") = .ok out)
+    (hL : (render out).length > env.maxData) :
+    runState env (fuel + 1) states name state data ctx retries st =
+      handleErr env fuel states name state data ctx retries (S "States.DataLimitExceeded") (S "m") st := by
+  have h1 : (S "Succeed" = S "Pass") = False := by decide
+  simp [runState, h, h1, hi, ho, hL]
 
 /-- Pass: InputPath, Parameters, Result (default: the effective input), ResultPath into the *raw*
 input, OutputPath — in that order; then Next/End. -/
